@@ -53,7 +53,6 @@ def run(ctx):
     binary = ctx.build("")
     run_heap(ctx, binary, thorough)
     if have("DiscreteLaws.tla"):
-        import importlib.util
         run_laws(ctx, binary, thorough)
     if have("SamplerProtocol.tla"):
         run_samplers(ctx, binary, thorough)
@@ -79,7 +78,17 @@ def run(ctx):
 
 
 def run_laws(ctx, binary, thorough):
-    pass
+    # (law, DBits, MaxN): one TLC run checks the law-consistency theorems on every parameter setting (R1) and prints
+    # the table of each (R2)
+    plan = [("bernoulli", 3, 0), ("bernoulli", 5, 0), ("uniform", 1, 4), ("triangle", 1, 3), ("binomial", 2, 6),
+            ("binomial", 3, 4), ("binomial", 5, 3)]
+    if thorough:
+        plan += [("uniform", 1, 6), ("triangle", 1, 5), ("binomial", 4, 6), ("binomial", 5, 5), ("binomial", 1, 6)]
+    for law, dbits, maxn in plan:
+        sub = dict(LAW=law, DBITS=dbits, MAXN=maxn, EMIT="TRUE")
+        cases = ctx.gen("dist/DiscreteLaws.tla", "dist/DiscreteLaws.cfg", subst=sub,
+                        name="R1+R2 laws %s dyadic bits=%d range=%d (theorems checked, tables printed)" % (law, dbits, maxn))
+        ctx.replay(binary, "dist-laws", cases, name="R2 replay laws %s bits=%d range=%d" % (law, dbits, maxn))
 
 
 def run_samplers(ctx, binary, thorough):
